@@ -44,9 +44,10 @@ structure Inv (s : State) : Prop where
   unpinEff : ∀ k ∈ s.calls, (s.ops k.op).cancelled = false → k.eff = true → k.kind = .unpin →
     s.daemon (s.ops k.op).cid = none
   sharedCid : ∀ c p, s.shared c = some p → p.cid = c
+  errCancelled : ∀ i, (s.ops i).phase = .error → (s.ops i).cancelled = true
 
 theorem inv_lose (s : State) (c : Nat) (h : Inv s) : Inv (lose s c) := by
-  obtain ⟨h1,h2,h3,h4,h5,h6,h7,h8,h9,h10,h11,h12,h13,h14,h15,h16,h17,h18,h19,h20⟩ := h
+  obtain ⟨h1,h2,h3,h4,h5,h6,h7,h8,h9,h10,h11,h12,h13,h14,h15,h16,h17,h18,h19,h20,h21⟩ := h
   constructor <;> simp only [lose] <;> try assumption
   · intro c' hc'
     have := h16 c' hc'
@@ -90,7 +91,7 @@ theorem inv_effect (s : State) (i : Nat) (h : Inv s) : Inv (effect s i) := by
     simp only
     split_ifs with hg
     · exact h
-    · obtain ⟨h1,h2,h3,h4,h5,h6,h7,h8,h9,h10,h11,h12,h13,h14,h15,h16,h17,h18,h19,h20⟩ := h
+    · obtain ⟨h1,h2,h3,h4,h5,h6,h7,h8,h9,h10,h11,h12,h13,h14,h15,h16,h17,h18,h19,h20,h21⟩ := h
       simp only [Bool.or_eq_true, not_or, Bool.not_eq_true] at hg
       change Inv { s with daemon := _, calls := s.calls.map (setEff i) }
       constructor <;> simp only [] <;> try assumption
@@ -183,13 +184,13 @@ theorem inv_replace (s : State) (h : Inv s) (c : Nat) (o : Op) (pq uq : List Nat
     (hsh : ∀ x, x ≠ c → sh x = s.shared x) (hfl : ∀ x, x ≠ c → fl x = s.failed x)
     (hshc : ∀ p, sh c = some p → p.cid = c)
     (hcid : o.cid = c) (hwant : wantTyp (sh c) o.typ) (hnd : o.phase ≠ .done)
-    (hcanc : o.cancelled = true → o.phase = .error)
+    (hcanc : o.cancelled = true → o.phase = .error) (hec : o.phase = .error → o.cancelled = true)
     (hpq : ∀ i ∈ pq, i = s.nextId ∧ o.typ = .pin) (huq : ∀ i ∈ uq, i = s.nextId ∧ o.typ = .unpin)
     (hcl : ∀ k ∈ cl, k.op = s.nextId ∧ (k.kind = .pin ↔ o.typ = .pin) ∧ k.eff = false)
     (hnodup : (pq ++ uq ++ cl.map (·.op)).Nodup)
     (hrem : o.typ = .remote → o.phase ≠ .error ∧ ∃ k ∈ cl, k.op = s.nextId) :
     Inv (replaceSt s c o pq uq cl sh fl) := by
-  obtain ⟨h1,h2,h3,h4,h5,h6,h7,h8,h9,h10,h11,h12,h13,h14,h15,h16,h17,h18,h19,h20⟩ := h
+  obtain ⟨h1,h2,h3,h4,h5,h6,h7,h8,h9,h10,h11,h12,h13,h14,h15,h16,h17,h18,h19,h20,h21⟩ := h
   unfold replaceSt
   constructor <;> simp only []
   case curLt => intro c' i hc; simp only [upd_apply] at hc; split_ifs at hc with e <;> grind
@@ -228,6 +229,7 @@ theorem inv_replace (s : State) (h : Inv s) (c : Nat) (o : Op) (pq uq : List Nat
   case remoteCall => intro c' i hc; simp only [upd_apply, cancelCurOps_apply, List.mem_append] at *; grind
   case unpinEff => intro k hk; simp only [upd_apply, cancelCurOps_apply, List.mem_append] at *; grind
   case sharedCid => intro c' p hp; by_cases e : c' = c <;> grind
+  case errCancelled => intro i hi; simp only [upd_apply, cancelCurOps_apply] at *; grind
 
 /-! ### the shared pinset changes, the table entry stays (deduplicated instruction, meta pin) -/
 
@@ -240,7 +242,7 @@ theorem inv_setShared (s : State) (h : Inv s) (c : Nat) (sh : Nat → Option Pin
       | none => s.daemon c = none
       | some p => p.kind = .remote → (s.daemon c = none ∨ fl c = true)) :
     Inv { s with shared := sh, failed := fl } := by
-  obtain ⟨h1,h2,h3,h4,h5,h6,h7,h8,h9,h10,h11,h12,h13,h14,h15,h16,h17,h18,h19,h20⟩ := h
+  obtain ⟨h1,h2,h3,h4,h5,h6,h7,h8,h9,h10,h11,h12,h13,h14,h15,h16,h17,h18,h19,h20,h21⟩ := h
   constructor <;> simp only [] <;> try assumption
   case curTyp => intro c' i hc; by_cases e : c' = c <;> grind
   case idle => intro c' hc; unfold idleOk at *; simp only []; by_cases e : c' = c <;> grind
@@ -271,7 +273,7 @@ theorem nodup_drop2 (i : Nat) (P rest A : List Nat) (h : (P ++ i :: rest ++ A).N
 
 theorem inv_startPin (s : State) (h : Inv s) (i : Nat) (rest : List Nat) (hq : s.pinQ = i :: rest) :
     Inv (startCall { s with pinQ := rest } i .pin) := by
-  obtain ⟨h1,h2,h3,h4,h5,h6,h7,h8,h9,h10,h11,h12,h13,h14,h15,h16,h17,h18,h19,h20⟩ := h
+  obtain ⟨h1,h2,h3,h4,h5,h6,h7,h8,h9,h10,h11,h12,h13,h14,h15,h16,h17,h18,h19,h20,h21⟩ := h
   have hmem : ∀ j, j ∈ rest → j ∈ s.pinQ := by intro j hj; rw [hq]; exact List.mem_cons_of_mem _ hj
   have hi : i ∈ s.pinQ := by rw [hq]; exact List.mem_cons_self
   unfold startCall
@@ -304,10 +306,11 @@ theorem inv_startPin (s : State) (h : Inv s) (i : Nat) (rest : List Nat) (hq : s
     case remoteCall => intro c' j hc'; simp only [upd_apply, List.mem_append, List.mem_singleton] at *; grind
     case unpinEff => intro k hk; simp only [upd_apply, List.mem_append, List.mem_singleton] at *; grind
     case sharedCid => exact h20
+    case errCancelled => intro j hj; simp only [upd_apply] at *; grind
 
 theorem inv_startUnpin (s : State) (h : Inv s) (i : Nat) (rest : List Nat) (hq : s.unpinQ = i :: rest) :
     Inv (startCall { s with unpinQ := rest } i .unpin) := by
-  obtain ⟨h1,h2,h3,h4,h5,h6,h7,h8,h9,h10,h11,h12,h13,h14,h15,h16,h17,h18,h19,h20⟩ := h
+  obtain ⟨h1,h2,h3,h4,h5,h6,h7,h8,h9,h10,h11,h12,h13,h14,h15,h16,h17,h18,h19,h20,h21⟩ := h
   have hmem : ∀ j, j ∈ rest → j ∈ s.unpinQ := by intro j hj; rw [hq]; exact List.mem_cons_of_mem _ hj
   have hi : i ∈ s.unpinQ := by rw [hq]; exact List.mem_cons_self
   unfold startCall
@@ -340,6 +343,7 @@ theorem inv_startUnpin (s : State) (h : Inv s) (i : Nat) (rest : List Nat) (hq :
     case remoteCall => intro c' j hc'; simp only [upd_apply, List.mem_append, List.mem_singleton] at *; grind
     case unpinEff => intro k hk; simp only [upd_apply, List.mem_append, List.mem_singleton] at *; grind
     case sharedCid => exact h20
+    case errCancelled => intro j hj; simp only [upd_apply] at *; grind
 
 theorem inv_deqPin (cfg : Cfg) (s : State) (h : Inv s) : Inv (deqPin cfg s) := by
   unfold deqPin
@@ -399,7 +403,7 @@ theorem inv_retOk (s : State) (i : Nat) (h : Inv s) : Inv (retOk s i) := by
       have huniq : ∀ k' ∈ s.calls, k'.op = i → k' = k := fun k' hk' e => call_unique h.nodup hk' hk (by rw [e, hki])
       have hnq := not_mem_queues_of_call h.nodup hk
       rw [hki] at hnq
-      obtain ⟨h1,h2,h3,h4,h5,h6,h7,h8,h9,h10,h11,h12,h13,h14,h15,h16,h17,h18,h19,h20⟩ := h
+      obtain ⟨h1,h2,h3,h4,h5,h6,h7,h8,h9,h10,h11,h12,h13,h14,h15,h16,h17,h18,h19,h20,h21⟩ := h
       constructor <;> simp only []
       case curLt => intro c' j hc'; simp only [upd_apply] at *; grind
       case pinQLt => exact h2
@@ -450,6 +454,7 @@ theorem inv_retOk (s : State) (i : Nat) (h : Inv s) : Inv (retOk s i) := by
         grind
       case unpinEff => intro k' hk'; rw [mem_dropCall] at hk'; simp only [upd_apply] at *; grind
       case sharedCid => exact h20
+      case errCancelled => intro j hj; simp only [upd_apply] at *; grind
 
 theorem inv_retErr (s : State) (i : Nat) (h : Inv s) : Inv (retErr s i) := by
   unfold retErr
@@ -470,7 +475,7 @@ theorem inv_retErr (s : State) (i : Nat) (h : Inv s) : Inv (retErr s i) := by
       have huniq : ∀ k' ∈ s.calls, k'.op = i → k' = k := fun k' hk' e => call_unique h.nodup hk' hk (by rw [e, hki])
       have hnq := not_mem_queues_of_call h.nodup hk
       rw [hki] at hnq
-      obtain ⟨h1,h2,h3,h4,h5,h6,h7,h8,h9,h10,h11,h12,h13,h14,h15,h16,h17,h18,h19,h20⟩ := h
+      obtain ⟨h1,h2,h3,h4,h5,h6,h7,h8,h9,h10,h11,h12,h13,h14,h15,h16,h17,h18,h19,h20,h21⟩ := h
       have hkind := h14 k hk
       rw [hki] at hkind
       constructor <;> simp only []
@@ -521,6 +526,7 @@ theorem inv_retErr (s : State) (i : Nat) (h : Inv s) : Inv (retErr s i) := by
         grind
       case unpinEff => intro k' hk'; rw [mem_dropCall] at hk'; simp only [upd_apply] at *; grind
       case sharedCid => exact h20
+      case errCancelled => intro j hj; simp only [upd_apply] at *; grind
 
 theorem inv_reap (s : State) (i : Nat) (h : Inv s) : Inv (reap s i) := by
   unfold reap
@@ -532,7 +538,7 @@ theorem inv_reap (s : State) (i : Nat) (h : Inv s) : Inv (reap s i) := by
     by_cases hg : (s.ops i).cancelled = true
     · rw [if_pos hg]
       have hnd := nodup_dropCall s i h.nodup
-      obtain ⟨h1,h2,h3,h4,h5,h6,h7,h8,h9,h10,h11,h12,h13,h14,h15,h16,h17,h18,h19,h20⟩ := h
+      obtain ⟨h1,h2,h3,h4,h5,h6,h7,h8,h9,h10,h11,h12,h13,h14,h15,h16,h17,h18,h19,h20,h21⟩ := h
       constructor <;> simp only [] <;> try assumption
       case callLt => intro k' hk'; rw [mem_dropCall] at hk'; exact h4 k' hk'.1
       case callCur => intro k' hk'; rw [mem_dropCall] at hk'; exact h11 k' hk'.1
@@ -548,7 +554,7 @@ theorem inv_reap (s : State) (i : Nat) (h : Inv s) : Inv (reap s i) := by
     · rw [if_neg hg]; exact h
 
 theorem inv_init : Inv init := by
-  constructor <;> simp [init, idleOk]
+  constructor <;> simp [init, idleOk, dummyOp]
 
 /-! ### external instructions -/
 
@@ -623,6 +629,7 @@ theorem inv_enqueue (cfg : Cfg) (s : State) (h : Inv s) (c : Nat) (sh : Nat → 
     · exact hwant
     · simp [newOpRec]
     · simp [newOpRec]
+    · simp [newOpRec]
     · intro i hi; split_ifs at hi with e
       · simp at hi; exact ⟨hi, e⟩
       · cases hi
@@ -637,6 +644,7 @@ theorem inv_enqueue (cfg : Cfg) (s : State) (h : Inv s) (c : Nat) (sh : Nat → 
     apply inv_replace s h c _ _ _ _ sh fl hsh hfl hshc
     · exact hp
     · exact hwant
+    · simp [newOpRec]
     · simp [newOpRec]
     · simp [newOpRec]
     · intro i hi; cases hi
@@ -700,6 +708,7 @@ theorem inv_track (cfg : Cfg) (s : State) (p : PinSpec) (h : Inv s) : Inv (track
       · simp [upd_apply, wantTyp, hk, newOpRec]
       · simp [newOpRec]
       · simp [newOpRec]
+      · simp [newOpRec]
       · intro i hi; cases hi
       · intro i hi; cases hi
       · intro k hk'; simp at hk'; subst hk'; simp [newOpRec]
@@ -749,23 +758,25 @@ theorem inv_enqueue_same (cfg : Cfg) (s : State) (h : Inv s) (c : Nat) (p : PinS
     (ht : typ ≠ .remote) (hwant : wantTyp (s.shared c) typ) : Inv (enqueue cfg s p typ).1 :=
   inv_enqueue cfg s h c s.shared s.failed (fun _ _ => rfl) (fun _ _ => rfl) (fun q hq => h.sharedCid c q hq) p hp typ ht hwant
 
+theorem recPin_cid {s : State} (h : Inv s) (c : Nat) : (recPin s c).cid = c := by
+  unfold recPin
+  cases hsh : s.shared c with
+  | none => rfl
+  | some p => exact h.sharedCid c p hsh
+
 theorem inv_recover (cfg : Cfg) (s : State) (c : Nat) (h : Inv s) : Inv (recover cfg s c).1 := by
   unfold recover recoverWith
   cases hs : statusOf s c <;> simp only [] <;> try exact h
   · -- pinError
     apply inv_enqueue_same cfg s h c
-    · cases hsh : s.shared c with
-      | none => rfl
-      | some p => exact h.sharedCid c p hsh
+    · exact recPin_cid h c
     · intro e; cases e
     · exact statusOf_pinError h (Or.inl hs)
   · apply inv_enqueue_same cfg s h c _ rfl
     · intro e; cases e
     · exact statusOf_unpinError h hs
   · apply inv_enqueue_same cfg s h c
-    · cases hsh : s.shared c with
-      | none => rfl
-      | some p => exact h.sharedCid c p hsh
+    · exact recPin_cid h c
     · intro e; cases e
     · exact statusOf_pinError h (Or.inr hs)
 
@@ -787,5 +798,582 @@ theorem inv_reachable {cfg : Cfg} {s : State} (h : Reachable cfg s) : Inv s := b
   induction h with
   | init => exact inv_init
   | step e _ ih => exact inv_step cfg _ e ih
+
+/-! ### quiescent states -/
+
+theorem quiescent_iff (n : Nat) (s : State) :
+    quiescent n (observe s) = true ↔
+      (∀ k ∈ s.calls, (s.ops k.op).cancelled = true) ∧ (∀ c, c < n → ongoing (statusOf s c) = false) := by
+  unfold quiescent observe
+  simp only [Bool.and_eq_true, List.isEmpty_iff, List.map_eq_nil_iff, List.filter_eq_nil_iff, beq_iff_eq,
+    List.length_eq_zero_iff, List.all_eq_true, List.mem_range, Bool.not_eq_eq_eq_not, Bool.not_true, alive,
+    Bool.and_eq_true, Bool.not_eq_eq_eq_not, Bool.not_true, not_and, Bool.not_eq_false]
+  constructor
+  · rintro ⟨⟨h1, _⟩, h3⟩
+    refine ⟨fun k hk => ?_, h3⟩
+    have := h1 k hk
+    cases hx : (s.ops k.op).cancelled <;> simp [hx] at this ⊢
+  · rintro ⟨h1, h3⟩
+    refine ⟨⟨fun k hk => by simp [h1 k hk], fun k hk _ => by simp [h1 k hk]⟩, h3⟩
+
+theorem heldAs_eq (s : State) (c : Nat) (m : Mode) : heldAs s c m = ((s.daemon c).map (·.1) == some m) := by
+  unfold heldAs
+  cases s.daemon c with
+  | none => rfl
+  | some mt => obtain ⟨m', t⟩ := mt; simp
+
+theorem matchOrError_of_quiescent {n : Nat} {s : State} (h : Inv s) (hq : quiescent n (observe s) = true)
+    (c : Nat) (hc : c < n) : matchOrError (observe s) c = true := by
+  rw [quiescent_iff] at hq
+  obtain ⟨hcalls, hst⟩ := hq
+  have hst := hst c hc
+  unfold matchOrError daemonMatches daemonMode observe
+  simp only []
+  unfold statusOf at hst ⊢
+  cases hcur : s.cur c with
+  | none =>
+    have hidle := h.idle c hcur
+    unfold idleOk at hidle
+    simp only [hcur] at hst ⊢
+    cases hsh : s.shared c with
+    | none => simp only [hsh] at hidle ⊢; simp [hidle]
+    | some p =>
+      simp only [hsh] at hidle ⊢
+      cases hk : p.kind with
+      | sharded => simp
+      | remote =>
+        rcases hidle hk with hd | hf
+        · simp [hd]
+        · simp [hf]
+      | here =>
+        simp only [heldAs_eq]
+        cases ((s.daemon c).map (·.1) == some p.mode) <;> simp [isError]
+  | some i =>
+    simp only [hcur] at hst ⊢
+    have hnd := h.curNotDone c i hcur
+    cases ht : (s.ops i).typ with
+    | pin =>
+      cases hp : (s.ops i).phase <;> simp [opStatus, ht, hp, ongoing, isError] at hst hnd ⊢
+    | unpin =>
+      cases hp : (s.ops i).phase <;> simp [opStatus, ht, hp, ongoing, isError] at hst hnd ⊢
+    | remote =>
+      by_cases hp : (s.ops i).phase = .error
+      · have hw := h.curTyp c i hcur
+        have hf := h.remoteErr c i hcur ht hp
+        rw [ht] at hw
+        unfold wantTyp at hw
+        cases hsh : s.shared c with
+        | none => rw [hsh] at hw; cases hw
+        | some p =>
+          rw [hsh] at hw; simp only [] at hw ⊢
+          cases hk : p.kind with
+          | sharded => simp
+          | remote => simp [hf]
+          | here => rw [hk] at hw; cases hw
+      · exfalso
+        obtain ⟨k, hk, hki⟩ := h.remoteCall c i hcur ht hp
+        have := hcalls k hk
+        rw [hki] at this
+        exact hp (h.curCancelled c i hcur this)
+
+/-! ### a recover round with IPFS healthy -/
+
+theorem heldAs_iff (s : State) (c : Nat) (m : Mode) : heldAs s c m = true ↔ ∃ t, s.daemon c = some (m, t) := by
+  unfold heldAs
+  cases s.daemon c with
+  | none => simp
+  | some mt => obtain ⟨m', t⟩ := mt; simp
+
+structure Healed (s : State) (c : Nat) : Prop where
+  idle : s.cur c = none → ∀ p, s.shared c = some p → p.kind = .here → ∃ t, s.daemon c = some (p.mode, t)
+  noErr : ∀ i, s.cur c = some i → (s.ops i).typ = .remote ∨ (s.ops i).phase ≠ .error
+  pinSpec : ∀ i, s.cur c = some i → (s.ops i).typ = .pin → s.shared c = some (s.ops i).pin
+  pinEff : ∀ i, s.cur c = some i → (s.ops i).typ = .pin → ∀ k ∈ s.calls, k.op = i → k.eff = true →
+    s.daemon c = some ((s.ops i).pin.mode, (s.ops i).pin.tag)
+
+def PreHealed (s : State) (c : Nat) : Prop :=
+  Healed s c ∨ s.cur c = none ∨ ∃ i, s.cur c = some i ∧ (s.ops i).phase = .error
+
+theorem healed_effect {s : State} (h : Inv s) (i c : Nat) (hh : Healed s c) : Healed (effect s i) c := by
+  unfold effect
+  cases hf : findCall s i with
+  | none => exact hh
+  | some k =>
+    obtain ⟨hk, hki⟩ := findCall_some hf
+    simp only
+    split_ifs with hg
+    · exact hh
+    · simp only [Bool.or_eq_true, not_or, Bool.not_eq_true] at hg
+      have hcur := h.callCur k hk (by rw [hki]; exact hg.1)
+      rw [hki] at hcur
+      have hkind := h.callKind k hk
+      rw [hki] at hkind
+      have huniq : ∀ k' ∈ s.calls, k'.op = i → k' = k := fun k' hk' e => call_unique h.nodup hk' hk (by rw [e, hki])
+      obtain ⟨g1, g2, g3, g4⟩ := hh
+      change Healed { s with daemon := _, calls := s.calls.map (setEff i) } c
+      constructor <;> simp only []
+      · intro hc p hp hkp
+        have hne : c ≠ (s.ops i).cid := by intro e; rw [e, hcur] at hc; cases hc
+        cases hkk : k.kind <;> simp only [upd_apply, hne, if_false] <;> exact g1 hc p hp hkp
+      · exact g2
+      · exact g3
+      · intro j hj ht k' hk' hk'j he
+        obtain ⟨k0, hk0, rfl⟩ := List.mem_map.1 hk'
+        rw [setEff_op] at hk'j
+        rw [setEff_eff] at he
+        by_cases e : c = (s.ops i).cid
+        · have hji : j = i := by rw [e, hcur] at hj; exact (Option.some.inj hj).symm
+          subst hji
+          have hkp : k.kind = .pin := hkind.2 ht
+          rw [hkp]; simp only [upd_apply, e, if_true]
+        · have hne : k0.op ≠ i := by
+            intro e2; rw [hk'j] at e2; subst e2
+            exact e (h.curCid c j hj).symm
+          simp only [hne, if_false] at he
+          have := g4 j hj ht k0 hk0 hk'j he
+          cases hkk : k.kind <;> simp only [upd_apply, e, if_false] <;> exact this
+
+theorem healed_retOk {s : State} (h : Inv s) (i c : Nat) (hh : Healed s c) : Healed (retOk s i) c := by
+  unfold retOk
+  cases hf : findCall s i with
+  | none => exact hh
+  | some k =>
+    obtain ⟨hk, hki⟩ := findCall_some hf
+    simp only
+    by_cases hg : ((s.ops i).cancelled || !k.eff) = true
+    · rw [if_pos hg]; exact hh
+    · rw [if_neg hg]
+      have hl : (s.ops i).cancelled = false := by
+        cases hx : (s.ops i).cancelled <;> simp [hx] at hg ⊢
+      have he : k.eff = true := by
+        cases hx : k.eff <;> simp [hx, hl] at hg ⊢
+      have hcur : s.cur (s.ops i).cid = some i := by
+        have := h.callCur k hk (by rw [hki]; exact hl)
+        rw [hki] at this; exact this
+      rw [if_pos hcur]
+      have hw := h.curTyp _ _ hcur
+      have hcid := h.curCid
+      obtain ⟨g1, g2, g3, g4⟩ := hh
+      constructor <;> simp only []
+      · intro hc p hp hkp
+        by_cases e : c = (s.ops i).cid
+        · subst e
+          rw [hp] at hw; unfold wantTyp at hw; simp only [hkp] at hw
+          have hs := g3 i hcur hw
+          rw [hp] at hs
+          have := g4 i hcur hw k hk hki he
+          rw [← Option.some.inj hs] at this
+          exact ⟨_, this⟩
+        · simp only [upd_apply, e, if_false] at hc
+          exact g1 hc p hp hkp
+      · intro j hj; simp only [upd_apply] at *; grind
+      · intro j hj; simp only [upd_apply] at *; grind
+      · intro j hj ht k' hk'; rw [mem_dropCall] at hk'; simp only [upd_apply] at *; grind
+
+theorem healed_reap {s : State} (h : Inv s) (i c : Nat) (hh : Healed s c) : Healed (reap s i) c := by
+  unfold reap
+  cases hf : findCall s i with
+  | none => exact hh
+  | some k =>
+    simp only
+    split_ifs with hg
+    · obtain ⟨g1, g2, g3, g4⟩ := hh
+      constructor <;> simp only [] <;> try assumption
+      intro j hj ht k' hk'; rw [mem_dropCall] at hk'; exact g4 j hj ht k' hk'.1
+    · exact hh
+
+theorem healed_startCall {s : State} (i c : Nat) (kind : CallKind) (hh : Healed s c)
+    (hfresh : ∀ k ∈ s.calls, k.op ≠ i) : Healed (startCall s i kind) c := by
+  unfold startCall
+  split_ifs with hc
+  · exact hh
+  · obtain ⟨g1, g2, g3, g4⟩ := hh
+    constructor <;> simp only []
+    · exact g1
+    · intro j hj; simp only [upd_apply] at *; grind
+    · intro j hj; simp only [upd_apply] at *; grind
+    · intro j hj ht k' hk'; simp only [upd_apply, List.mem_append, List.mem_singleton] at *; grind
+
+theorem healed_deqPin {s : State} (cfg : Cfg) (h : Inv s) (c : Nat) (hh : Healed s c) : Healed (deqPin cfg s) c := by
+  unfold deqPin
+  split_ifs
+  · cases hq : s.pinQ with
+    | nil => exact hh
+    | cons i rest =>
+      simp only
+      have hnd := h.nodup
+      rw [hq] at hnd
+      have hfresh : ∀ k ∈ s.calls, k.op ≠ i := by
+        intro k hk e
+        have hm : k.op ∈ s.calls.map (·.op) := List.mem_map.2 ⟨k, hk, rfl⟩
+        rw [List.nodup_append] at hnd
+        exact hnd.2.2 i (by simp) k.op hm e.symm
+      have h' : Healed { s with pinQ := rest } c := ⟨hh.idle, hh.noErr, hh.pinSpec, hh.pinEff⟩
+      exact healed_startCall (s := { s with pinQ := rest }) i c .pin h' hfresh
+  · exact hh
+
+theorem healed_deqUnpin {s : State} (h : Inv s) (c : Nat) (hh : Healed s c) : Healed (deqUnpin s) c := by
+  unfold deqUnpin
+  split_ifs
+  · exact hh
+  · cases hq : s.unpinQ with
+    | nil => exact hh
+    | cons i rest =>
+      simp only
+      have hnd := h.nodup
+      rw [hq] at hnd
+      have hfresh : ∀ k ∈ s.calls, k.op ≠ i := by
+        intro k hk e
+        have hm : k.op ∈ s.calls.map (·.op) := List.mem_map.2 ⟨k, hk, rfl⟩
+        rw [List.nodup_append] at hnd
+        exact hnd.2.2 i (by simp) k.op hm e.symm
+      have h' : Healed { s with unpinQ := rest } c := ⟨hh.idle, hh.noErr, hh.pinSpec, hh.pinEff⟩
+      exact healed_startCall (s := { s with unpinQ := rest }) i c .unpin h' hfresh
+
+/-! start-like: nothing of this round has touched the cid yet -/
+def StartLike (s : State) (c : Nat) : Prop := s.cur c = none ∨ ∃ i, s.cur c = some i ∧ (s.ops i).phase = .error
+
+theorem startLike_effect {s : State} (i c : Nat) (hh : StartLike s c) : StartLike (effect s i) c := by
+  unfold effect
+  cases hf : findCall s i with
+  | none => exact hh
+  | some k => simp only; split_ifs <;> exact hh
+
+theorem startLike_reap {s : State} (i c : Nat) (hh : StartLike s c) : StartLike (reap s i) c := by
+  unfold reap
+  cases hf : findCall s i with
+  | none => exact hh
+  | some k => simp only; split_ifs <;> exact hh
+
+theorem startLike_retOk {s : State} (h : Inv s) (i c : Nat) (hh : StartLike s c) : StartLike (retOk s i) c := by
+  unfold retOk
+  cases hf : findCall s i with
+  | none => exact hh
+  | some k =>
+    simp only
+    by_cases hg : ((s.ops i).cancelled || !k.eff) = true
+    · rw [if_pos hg]; exact hh
+    · rw [if_neg hg]
+      have hl : (s.ops i).cancelled = false := by
+        cases hx : (s.ops i).cancelled <;> simp [hx] at hg ⊢
+      have hec := h.errCancelled
+      unfold StartLike at *
+      simp only []
+      split_ifs <;> simp only [upd_apply] <;> grind
+
+theorem startLike_startCall {s : State} (h : ∀ i, (s.ops i).phase = .error → (s.ops i).cancelled = true)
+    (i c : Nat) (kind : CallKind) (hh : StartLike s c) : StartLike (startCall s i kind) c := by
+  unfold startCall
+  split_ifs with hc
+  · exact hh
+  · unfold StartLike at *; simp only [upd_apply]; grind
+
+theorem startLike_deqPin {s : State} (cfg : Cfg) (h : Inv s) (c : Nat) (hh : StartLike s c) : StartLike (deqPin cfg s) c := by
+  unfold deqPin
+  split_ifs
+  · cases hq : s.pinQ with
+    | nil => exact hh
+    | cons i rest => exact startLike_startCall (s := { s with pinQ := rest }) h.errCancelled i c .pin hh
+  · exact hh
+
+theorem startLike_deqUnpin {s : State} (h : Inv s) (c : Nat) (hh : StartLike s c) : StartLike (deqUnpin s) c := by
+  unfold deqUnpin
+  split_ifs
+  · exact hh
+  · cases hq : s.unpinQ with
+    | nil => exact hh
+    | cons i rest => exact startLike_startCall (s := { s with unpinQ := rest }) h.errCancelled i c .unpin hh
+
+/-! recover -/
+
+theorem healed_replace_other {s : State} (h : Inv s) (c c' : Nat) (hne : c ≠ c') (o : Op) (pq uq : List Nat) (cl : List Call)
+    (hcl : ∀ k ∈ cl, k.op = s.nextId) (hh : Healed s c) : Healed (replaceSt s c' o pq uq cl s.shared s.failed) c := by
+  obtain ⟨g1, g2, g3, g4⟩ := hh
+  have h1 := h.curLt
+  have h6 := h.curCid
+  have h4 := h.callLt
+  unfold replaceSt
+  constructor <;> simp only []
+  · intro hc; simp only [upd_apply, hne, if_false] at hc; exact g1 hc
+  · intro j hj; simp only [upd_apply, cancelCurOps_apply] at *; grind
+  · intro j hj; simp only [upd_apply, cancelCurOps_apply] at *; grind
+  · intro j hj ht k hk; simp only [upd_apply, cancelCurOps_apply, List.mem_append] at *; grind
+
+theorem startLike_replace_other {s : State} (h : Inv s) (c c' : Nat) (hne : c ≠ c') (o : Op) (pq uq : List Nat) (cl : List Call)
+    (hh : StartLike s c) : StartLike (replaceSt s c' o pq uq cl s.shared s.failed) c := by
+  have h1 := h.curLt
+  have h6 := h.curCid
+  unfold replaceSt StartLike at *
+  simp only [upd_apply, cancelCurOps_apply]
+  grind
+
+theorem healed_replace_self {s : State} (h : Inv s) (c : Nat) (p : PinSpec) (typ : OpType) (ht : typ ≠ .remote)
+    (hp : typ = .pin → s.shared c = some p) (pq uq : List Nat) :
+    Healed (replaceSt s c (newOpRec p typ .queued false) pq uq [] s.shared s.failed) c := by
+  have h4 := h.callLt
+  unfold replaceSt newOpRec
+  constructor <;> simp only []
+  · intro hc; simp [upd_apply] at hc
+  · intro j hj; simp only [upd_apply, cancelCurOps_apply] at *; grind
+  · intro j hj; simp only [upd_apply, cancelCurOps_apply] at *; grind
+  · intro j hj ht k hk; simp only [upd_apply, cancelCurOps_apply, List.mem_append] at *; grind
+
+theorem healed_enqueue_other {s : State} (cfg : Cfg) (h : Inv s) (c : Nat) (p : PinSpec) (typ : OpType) (ht : typ ≠ .remote)
+    (hne : c ≠ p.cid) (hh : Healed s c) : Healed (enqueue cfg s p typ).1 c := by
+  rcases enqueue_cases cfg s p typ ht with ⟨i, _, _, _, _, h5⟩ | h5 | h5
+  · rw [h5]; exact hh
+  · rw [h5]; exact healed_replace_other h c p.cid hne _ _ _ _ (by intro k hk; cases hk) hh
+  · rw [h5]; exact healed_replace_other h c p.cid hne _ _ _ _ (by intro k hk; cases hk) hh
+
+theorem startLike_enqueue_other {s : State} (cfg : Cfg) (h : Inv s) (c : Nat) (p : PinSpec) (typ : OpType) (ht : typ ≠ .remote)
+    (hne : c ≠ p.cid) (hh : StartLike s c) : StartLike (enqueue cfg s p typ).1 c := by
+  rcases enqueue_cases cfg s p typ ht with ⟨i, _, _, _, _, h5⟩ | h5 | h5
+  · rw [h5]; exact hh
+  · rw [h5]; exact startLike_replace_other h c p.cid hne _ _ _ _ hh
+  · rw [h5]; exact startLike_replace_other h c p.cid hne _ _ _ _ hh
+
+theorem healed_recover_other {s : State} (cfg : Cfg) (h : Inv s) (c c' : Nat) (hne : c ≠ c') (hh : Healed s c) :
+    Healed (recover cfg s c').1 c := by
+  unfold recover recoverWith
+  cases hs : statusOf s c' <;> simp only [] <;> try exact hh
+  · exact healed_enqueue_other cfg h c _ .pin (by intro e; cases e) (by rw [recPin_cid h]; exact hne) hh
+  · exact healed_enqueue_other cfg h c _ .unpin (by intro e; cases e) hne hh
+  · exact healed_enqueue_other cfg h c _ .pin (by intro e; cases e) (by rw [recPin_cid h]; exact hne) hh
+
+theorem startLike_recover_other {s : State} (cfg : Cfg) (h : Inv s) (c c' : Nat) (hne : c ≠ c') (hh : StartLike s c) :
+    StartLike (recover cfg s c').1 c := by
+  unfold recover recoverWith
+  cases hs : statusOf s c' <;> simp only [] <;> try exact hh
+  · exact startLike_enqueue_other cfg h c _ .pin (by intro e; cases e) (by rw [recPin_cid h]; exact hne) hh
+  · exact startLike_enqueue_other cfg h c _ .unpin (by intro e; cases e) hne hh
+  · exact startLike_enqueue_other cfg h c _ .pin (by intro e; cases e) (by rw [recPin_cid h]; exact hne) hh
+
+/-- the status of a start-like cid -/
+theorem statusOf_cur {s : State} {c i : Nat} (hc : s.cur c = some i) : statusOf s c = opStatus (s.ops i) := by
+  unfold statusOf; rw [hc]
+
+theorem healed_recover_self {s : State} (cfg : Cfg) (h : Inv s) (c : Nat) (hh : Healed s c ∨ StartLike s c)
+    (hnf : (recover cfg s c).2 ≠ .full) : Healed (recover cfg s c).1 c := by
+  unfold recover recoverWith at *
+  -- a status that triggers nothing
+  have noact : (statusOf s c ≠ .pinError ∧ statusOf s c ≠ .unexpectedlyUnpinned ∧ statusOf s c ≠ .unpinError) → Healed s c := by
+    intro hst
+    rcases hh with hh | hh | ⟨i, hi, hp⟩
+    · exact hh
+    · refine ⟨?_, ?_, ?_, ?_⟩
+      rotate_left
+      · intro j hj; rw [hh] at hj; cases hj
+      · intro j hj; rw [hh] at hj; cases hj
+      · intro j hj; rw [hh] at hj; cases hj
+      intro _ p hp hk
+      have : statusOf s c = if heldAs s c p.mode then .pinned else .pinError := by
+        unfold statusOf; rw [hh, hp]; simp only [hk]
+      rw [this] at hst
+      by_cases hx : heldAs s c p.mode = true
+      · exact (heldAs_iff s c p.mode).1 hx
+      · simp [hx] at hst
+    · rw [statusOf_cur hi] at hst
+      refine ⟨?_, ?_, ?_, ?_⟩
+      · intro hn; rw [hn] at hi; cases hi
+      · intro j hj; rw [hi] at hj; cases hj
+        cases ht : (s.ops i).typ
+        · simp [opStatus, ht, hp] at hst
+        · simp [opStatus, ht, hp] at hst
+        · exact Or.inl rfl
+      · intro j hj ht; rw [hi] at hj; cases hj
+        simp [opStatus, ht, hp] at hst
+      · intro j hj ht; rw [hi] at hj; cases hj
+        simp [opStatus, ht, hp] at hst
+  have pinCase : (statusOf s c = .pinError ∨ statusOf s c = .unexpectedlyUnpinned) →
+      (enqueue cfg s (recPin s c) .pin).2 ≠ .full →
+      Healed (enqueue cfg s (recPin s c) .pin).1 c := by
+    intro hs hnf
+    have hw := statusOf_pinError h hs
+    have hsh : s.shared c = some (recPin s c) := by
+      unfold wantTyp at hw
+      unfold recPin
+      cases hx : s.shared c with
+      | none => rw [hx] at hw; cases hw
+      | some p => rfl
+    have hcid := recPin_cid h c
+    generalize (recPin s c) = q at *
+    rcases enqueue_cases cfg s q .pin (by intro e; cases e) with ⟨i, h1, h2, h3, h4, h5⟩ | h5 | h5
+    · exfalso
+      rw [hcid] at h1
+      rw [statusOf_cur h1] at hs
+      cases hp : (s.ops i).phase <;> simp [opStatus, h2, hp] at hs h3 h4
+    · rw [h5, hcid]
+      exact healed_replace_self h c q .pin (by intro e; cases e) (fun _ => hsh) _ _
+    · rw [h5] at hnf; exact absurd rfl hnf
+  have unpinCase : statusOf s c = .unpinError →
+      (enqueue cfg s (pinCid c) .unpin).2 ≠ .full → Healed (enqueue cfg s (pinCid c) .unpin).1 c := by
+    intro hs hnf
+    rcases enqueue_cases cfg s (pinCid c) .unpin (by intro e; cases e) with ⟨i, h1, h2, h3, h4, h5⟩ | h5 | h5
+    · exfalso
+      have h1' : s.cur c = some i := h1
+      rw [statusOf_cur h1'] at hs
+      cases hp : (s.ops i).phase <;> simp [opStatus, h2, hp] at hs h3 h4
+    · rw [h5]
+      exact healed_replace_self h c (pinCid c) .unpin (by intro e; cases e) (fun e => by cases e) _ _
+    · rw [h5] at hnf; exact absurd rfl hnf
+  cases hs : statusOf s c <;> simp only [hs] at hnf ⊢
+  case pinError => exact pinCase (Or.inl hs) hnf
+  case unexpectedlyUnpinned => exact pinCase (Or.inr hs) hnf
+  case unpinError => exact unpinCase hs hnf
+  all_goals exact noact (by simp [hs])
+
+theorem healed_step {s : State} (cfg : Cfg) (h : Inv s) (e : Ev) (he : healthyEv e = true) (c : Nat) (hh : Healed s c)
+    (hnf : (stepRet cfg s e).2 ≠ .full) : Healed (stepRet cfg s e).1 c := by
+  cases e <;> simp only [healthyEv, Bool.false_eq_true] at he <;> simp only [stepRet] at hnf ⊢
+  case recover c' =>
+    by_cases e : c = c'
+    · subst e; exact healed_recover_self cfg h c (Or.inl hh) hnf
+    · exact healed_recover_other cfg h c c' e hh
+  case deqPin => exact healed_deqPin cfg h c hh
+  case deqUnpin => exact healed_deqUnpin h c hh
+  case effect i => exact healed_effect h i c hh
+  case retOk i => exact healed_retOk h i c hh
+  case reap i => exact healed_reap h i c hh
+
+theorem pre_step {s : State} (cfg : Cfg) (h : Inv s) (e : Ev) (he : healthyEv e = true) (c : Nat)
+    (hh : Healed s c ∨ StartLike s c) (hnf : (stepRet cfg s e).2 ≠ .full) :
+    Healed (stepRet cfg s e).1 c ∨ StartLike (stepRet cfg s e).1 c := by
+  rcases hh with hh | hh
+  · exact Or.inl (healed_step cfg h e he c hh hnf)
+  · cases e <;> simp only [healthyEv, Bool.false_eq_true] at he <;> simp only [stepRet] at hnf ⊢
+    case recover c' =>
+      by_cases e : c = c'
+      · subst e; exact Or.inl (healed_recover_self cfg h c (Or.inr hh) hnf)
+      · exact Or.inr (startLike_recover_other cfg h c c' e hh)
+    case deqPin => exact Or.inr (startLike_deqPin cfg h c hh)
+    case deqUnpin => exact Or.inr (startLike_deqUnpin h c hh)
+    case effect i => exact Or.inr (startLike_effect i c hh)
+    case retOk i => exact Or.inr (startLike_retOk h i c hh)
+    case reap i => exact Or.inr (startLike_reap i c hh)
+
+theorem recover_step_heals {s : State} (cfg : Cfg) (h : Inv s) (c : Nat) (hh : Healed s c ∨ StartLike s c)
+    (hnf : (stepRet cfg s (.recover c)).2 ≠ .full) : Healed (stepRet cfg s (.recover c)).1 c := by
+  simp only [stepRet] at hnf ⊢
+  exact healed_recover_self cfg h c hh hnf
+
+theorem heal_run (cfg : Cfg) (n : Nat) : ∀ (es : List Ev) (s s' : State), Inv s →
+    (∀ c, c < n → Healed s c ∨ StartLike s c) → (∀ e ∈ es, healthyEv e = true) → runOk cfg s es = some s' →
+    Inv s' ∧ (∀ c, c < n → Healed s' c ∨ StartLike s' c) ∧
+      (∀ c, c < n → (Healed s c ∨ Ev.recover c ∈ es) → Healed s' c) := by
+  intro es
+  induction es with
+  | nil =>
+    intro s s' h hp _ hrun
+    simp only [runOk, Option.some.injEq] at hrun
+    subst hrun
+    refine ⟨h, hp, ?_⟩
+    intro c _ hc
+    rcases hc with hc | hc
+    · exact hc
+    · cases hc
+  | cons e es ih =>
+    intro s s' h hp hes hrun
+    simp only [runOk] at hrun
+    split_ifs at hrun with hf
+    have he := hes e List.mem_cons_self
+    have h1 : Inv (stepRet cfg s e).1 := inv_step cfg s e h
+    have hp1 : ∀ c, c < n → Healed (stepRet cfg s e).1 c ∨ StartLike (stepRet cfg s e).1 c :=
+      fun c hc => pre_step cfg h e he c (hp c hc) hf
+    obtain ⟨g1, g2, g3⟩ := ih (stepRet cfg s e).1 s' h1 hp1 (fun e' he' => hes e' (List.mem_cons_of_mem _ he')) hrun
+    refine ⟨g1, g2, ?_⟩
+    intro c hc hcase
+    apply g3 c hc
+    rcases hcase with hh | hm
+    · exact Or.inl (healed_step cfg h e he c hh hf)
+    · rcases List.mem_cons.1 hm with e1 | e1
+      · left; rw [← e1]; exact recover_step_heals cfg h c (hp c hc) (by rw [e1]; exact hf)
+      · exact Or.inr e1
+
+theorem startLike_of_quiescent {n : Nat} {s : State} (h : Inv s) (hq : quiescent n (observe s) = true) (c : Nat)
+    (hc : c < n) : StartLike s c := by
+  rw [quiescent_iff] at hq
+  obtain ⟨hcalls, hst⟩ := hq
+  have hst := hst c hc
+  cases hcur : s.cur c with
+  | none => exact Or.inl hcur
+  | some i =>
+    right
+    refine ⟨i, hcur, ?_⟩
+    rw [statusOf_cur hcur] at hst
+    have hnd := h.curNotDone c i hcur
+    cases ht : (s.ops i).typ with
+    | pin => cases hp : (s.ops i).phase <;> simp [opStatus, ht, hp, ongoing] at hst hnd ⊢
+    | unpin => cases hp : (s.ops i).phase <;> simp [opStatus, ht, hp, ongoing] at hst hnd ⊢
+    | remote =>
+      by_contra hp
+      obtain ⟨k, hk, hki⟩ := h.remoteCall c i hcur ht hp
+      have := hcalls k hk
+      rw [hki] at this
+      exact hp (h.curCancelled c i hcur this)
+
+theorem matches_of_healed_quiescent {n : Nat} {s : State} (h : Inv s) (hq : quiescent n (observe s) = true) (c : Nat)
+    (hc : c < n) (hh : Healed s c) : daemonMatches (observe s) c = true := by
+  have hsl := startLike_of_quiescent h hq c hc
+  unfold daemonMatches daemonMode observe
+  simp only []
+  rcases hsl with hcur | ⟨i, hcur, hp⟩
+  · have hidle := h.idle c hcur
+    unfold idleOk at hidle
+    cases hsh : s.shared c with
+    | none => simp only [hsh] at hidle ⊢; simp [hidle]
+    | some p =>
+      simp only [hsh] at hidle ⊢
+      cases hk : p.kind with
+      | sharded => simp
+      | remote =>
+        rcases hidle hk with hd | hf
+        · simp [hd]
+        · simp [hf]
+      | here =>
+        obtain ⟨t, ht⟩ := hh.idle hcur p hsh hk
+        simp [ht]
+  · have hne := hh.noErr i hcur
+    have ht : (s.ops i).typ = .remote := by
+      rcases hne with ht | hne
+      · exact ht
+      · exact absurd hp hne
+    have hw := h.curTyp c i hcur
+    have hf := h.remoteErr c i hcur ht hp
+    rw [ht] at hw
+    unfold wantTyp at hw
+    cases hsh : s.shared c with
+    | none => rw [hsh] at hw; cases hw
+    | some p =>
+      rw [hsh] at hw; simp only [] at hw ⊢
+      cases hk : p.kind with
+      | sharded => simp
+      | remote => simp [hf]
+      | here => rw [hk] at hw; cases hw
+
+
+/-! ### an instruction that cannot be queued is reported -/
+
+theorem enqueue_status (cfg : Cfg) (s : State) (p : PinSpec) (typ : OpType) (ht : typ ≠ .remote) :
+    ∃ i, (enqueue cfg s p typ).1.cur p.cid = some i ∧ ((enqueue cfg s p typ).1.ops i).typ = typ ∧
+      ((enqueue cfg s p typ).2 = .full → ((enqueue cfg s p typ).1.ops i).phase = .error) ∧
+      ((enqueue cfg s p typ).2 = .nil → ((enqueue cfg s p typ).1.ops i).phase = .queued ∨
+        ((enqueue cfg s p typ).1.ops i).phase = .inProgress) := by
+  rcases enqueue_cases cfg s p typ ht with ⟨i, h1, h2, h3, h4, h5⟩ | h5 | h5
+  · rw [h5]
+    refine ⟨i, h1, h2, ?_, ?_⟩
+    · intro e; cases e
+    · intro _; cases hp : (s.ops i).phase <;> simp [hp] at h3 h4 ⊢
+  · rw [h5]
+    refine ⟨s.nextId, ?_, ?_, ?_, ?_⟩
+    · simp [replaceSt]
+    · simp [replaceSt, newOpRec]
+    · intro e; cases e
+    · intro _; simp [replaceSt, newOpRec]
+  · rw [h5]
+    refine ⟨s.nextId, ?_, ?_, ?_, ?_⟩
+    · simp [replaceSt]
+    · simp [replaceSt, newOpRec]
+    · intro _; simp [replaceSt, newOpRec]
+    · intro e; cases e
 
 end CV.C05
